@@ -143,7 +143,7 @@ pub fn generate(tier: &str, rng: &mut Rng) -> Vec<Case> {
     let per_n = if thorough { 260 } else { 36 };
     for &n in big_ns {
         // cost of a case is about P (the real recalculation walks every partition): bounded per cluster size
-        let mut budget: i64 = if thorough { 220_000 } else { 12_000 };
+        let mut budget: i64 = if thorough { 80_000 } else { 12_000 };
         for _ in 0..per_n {
             let r0 = rng.below(n as u64) as u32;
             let idx = *rng.pick(&[0, 1, n / 2, n - 2, n - 1, r0]);
@@ -167,7 +167,7 @@ pub fn generate(tier: &str, rng: &mut Rng) -> Vec<Case> {
     }
     // 4. random configurations
     let nrand = if thorough { 4000 } else { 500 };
-    let mut budget: i64 = if thorough { 1_500_000 } else { 80_000 };
+    let mut budget: i64 = if thorough { 500_000 } else { 80_000 };
     for _ in 0..nrand {
         let n = if rng.chance(1, 12) { log_uniform(rng, 65535) } else { log_uniform(rng, 300) } as u32;
         let idx = if rng.chance(1, 30) { n } else { rng.below(n as u64) as u32 };
